@@ -234,6 +234,8 @@ def kill_matrix(pid, units):
             m, benign = j
             try:
                 ur = run_unit(un, mutate=(m['file'], m['old'], m['new'], m.get('nth', 0)), tag='mut_' + m['id'], features=m.get('features'))
+                if ur.res.status == 'undecided':
+                    ur = run_unit(un, mutate=(m['file'], m['old'], m['new'], m.get('nth', 0)), tag='mut_' + m['id'] + 'r', features=m.get('features'))
             except splice.ExtractError as e:
                 return m['id'], 'not-applicable-to-this-tree (%s)' % str(e)[:80]
             real, _, _ = split_canaries(ur)
